@@ -219,6 +219,10 @@ fn run_list_realtime(obs: &mut Obs, rng: &mut Rng, idx: u64) {
         if hostile && rng.chance(1, 3) {
             name.push_str(HOSTILE[rng.usize_below(HOSTILE.len())]);
         }
+        if hostile && rng.chance(1, 6) {
+            // a key with a further path segment: the identifier is still the final segment
+            name = format!("part{}/{}", rng.below(3), name);
+        }
         let t = 1_700_000_000_000 + rng.below(100_000_000_000) as i64;
         let key = format!("{}{}", prefix, name);
         times.insert(key.clone(), t);
